@@ -270,7 +270,7 @@ def check(prop, tier, seed):
                                             'original_scenario': scen.enc(sc), 'rerun': './check --replay <this file>'})
         violations.append((path, smsg, False))
         k += 1
-    if not oracle_fail and (disagreements or lean['failed']):
+    if not oracle_fail and not violations and (disagreements or lean['failed']):
         # the tie to the code (or a proof obligation) is broken and the search found no failing input
         what = {'property': prop, 'kind': 'no-longer-shown',
                 'broken_obligations': lean['failed'], 'correspondence_disagreements': disagreements[:10],
